@@ -257,6 +257,24 @@ def processor_harnesses(tier):
                         colours=lambda v: v.shadows[0].color == SP.NamedColors.red.value and v.shadows[1].color == SP.NamedColors.blue.value
                         and v.shadows[1].blur_radius is None)
 
+    # --- Disparity (regions): a horizontal offset -- %, c and px of the width of the root container, em of the computed font size
+    for unit in UNITS:
+      def disparity(ctx, unit=unit, env=env, cell=cell, px=px):
+        isd = mk_isd(cell, px)
+        el = I.ISD.Region("r1", isd)
+        fs = slen("fs", "rh", nonneg=True)
+        el.set_style(P.FontSize, fs)
+        src = slen("v", unit)
+        el.set_style(P.Disparity, src)
+        core.call_real(SPr.Disparity.compute, None, el)
+        fsn = ("L", fs.value, "rh")
+        want = S.resolve_length(env, ("L", src.value, unit), "h", ("L", 100, "rw"), fsn)
+        prove(eq_len(el.get_style(P.Disparity), want), "disparity-relative-to-the-root-container-width")
+
+      hs.append(Harness(f"Disparity.compute[{unit}]@{tag}", disparity, [MI + "StyleProcessors.Disparity.compute", MI + "_compute_length"],
+                        "replayers.c03:processor", {"processor": "Disparity", "unit": unit, "cell": list(cell), "px": list(px)},
+                        "tts:disparity: %, c and px of the width of the root container, em of the computed font size"))
+
     # --- Extent / Origin
     for hu, wu in (("%", "%"), ("px", "px"), ("c", "c"), ("rh", "rw"), ("c", "%"), ("%", "px")):
       def extent(ctx, hu=hu, wu=wu, env=env, cell=cell, px=px):
